@@ -43,3 +43,12 @@ static int ref_edge(const int *g, int sc, const int *sp, int sf, int dc, const i
 static int ref_indeg(const int *g, int c, const int *p, int f) { (void)g; (void)p; (void)f; return c == REF_CLS_Q ? 1 : 0; }
 static int ref_from_memory(const int *g, int c, const int *p, int f, int *co)
 { (void)g; (void)f; if (c == REF_CLS_P) { co[0] = p[0]; co[1] = p[2]; return 1; } return 3; }
+
+/* run the real generated internal_init of every class (sets the key min/range fields, repositories) */
+static __parsec_derived_P_task_t ref_init_task_P;
+static __parsec_derived_Q_task_t ref_init_task_Q;
+static void ref_init_all(REF_TP_T *tp)
+{
+    ref_init_task_P.taskpool = (parsec_taskpool_t *)tp; derived_P_internal_init(NULL, &ref_init_task_P);
+    ref_init_task_Q.taskpool = (parsec_taskpool_t *)tp; derived_Q_internal_init(NULL, &ref_init_task_Q);
+}
